@@ -62,6 +62,7 @@ class Loader(yaml.SafeLoader):
         """
         node = cast(yaml.Node, super().get_single_node())
         if node is not None:
+            self.__reject_recursion(node, ())
             node = self.__process_node(node, type(self).document_type)
         return node
 
@@ -77,8 +78,33 @@ class Loader(yaml.SafeLoader):
         """
         node = cast(yaml.Node, super().get_node())
         if node is not None:
+            self.__reject_recursion(node, ())
             node = self.__process_node(node, type(self).document_type)
         return node
+
+    def __reject_recursion(self, node: yaml.Node, parents: tuple) -> None:
+        """Raises if a node contains itself via an alias.
+
+        Recognition and processing recurse over the node graph, so a
+        self-referential document would otherwise exhaust the stack.
+
+        Args:
+            node: The node to check.
+            parents: Ids of the nodes we are currently inside of.
+        """
+        if id(node) in parents:
+            raise RecognitionError((
+                '{}\nThis is an alias for something it is itself a part of.'
+                ' Recursive structures are not supported.').format(
+                    node.start_mark))
+        parents = parents + (id(node),)
+        if isinstance(node, yaml.SequenceNode):
+            for item in node.value:
+                self.__reject_recursion(item, parents)
+        elif isinstance(node, yaml.MappingNode):
+            for key_node, value_node in node.value:
+                self.__reject_recursion(key_node, parents)
+                self.__reject_recursion(value_node, parents)
 
     def __type_to_tag(self, type_: Type) -> str:
         """Convert a type to the corresponding YAML tag.
